@@ -14,7 +14,8 @@ META = {
                    "pi_S; padded tables must have a single key length and a single value length. Shape equality "
                    "with a representative is transitive, so all pairs of the family are covered.",
     "bounds": {"profiles": "a in 0..5 lists of length x in 1..4, plus n1 in 0..6 and n2 in 0..2 (<= 7 keywords, "
-                           "N <= 28); small block parameters"},
+                           "N <= 28); small block parameters; identifier size 1-2 bytes, and 16 (thorough: 15, 16, 17, 32) "
+                           "after an index of another identifier size was built in the same process"},
     "outside_bounds": "larger databases and default block sizes; contents (the ideal cipher makes lengths "
                       "independent of contents by construction)",
     "stubs": ["as C01 (ideal primitives)"],
@@ -166,6 +167,11 @@ def _h_shape(P, S):
         return False
     P2 = dict(P)
     P2["concrete_ids"] = True
+    if P.get("warm") is not None:
+        # history: the process has built an index of another configuration (other length classes) before
+        PL.begin(P)
+        wcfg = PL.small_config(scheme, P["warm"])
+        PL.build(scheme, wcfg, PL.make_db(P2, S, scheme, wcfg, [2, 1] if _valid(scheme, wcfg, [2, 1]) else [1]))
     shapes = []
     for prof in (lens, rep):
         PL.begin(P)
@@ -217,6 +223,24 @@ def obligations(tier, seed):
     for ci, over in enumerate(({"param_identifier_size": 7}, {"param_k": 16, "param_identifier_size": 15})):
         obs.append(ob("c05.CGKO06.SSE1.straddle%d" % ci, "harness.c05", "h_shape",
                       {"scheme": "CGKO06.SSE1", "over": over, "a": 1, "seed": seed, "max_n1": 2}, budget_s=400))
+    # identifier sizes on a cipher-block boundary (PKCS7 adds a whole block at 16, 32), after the process has
+    # already built an index with the small default identifier size (no length may be remembered across objects)
+    for scheme in PL.SCHEMES:
+        for size in (16,) if tier == "quick" else (15, 16, 17, 32):
+            over = {"param_identifier_size": size}
+            if scheme == "CGKO06.SSE1":
+                over.update(param_s=32)
+            for a in (1, 3):
+                obs.append(ob("c05.%s.idsize%d.warm.a%d" % (scheme, size, a), "harness.c05", "h_shape",
+                              {"scheme": scheme, "over": over, "warm": {}, "a": a, "seed": seed, "max_n1": 3},
+                              budget_s=400, max_cex=200 if scheme == "ANSS16.Scheme3" else 4))
+    # PiPtr with fewer pointers than identifiers per block (the quick tier's first configuration has b == B)
+    if tier == "quick":
+        for over in ({"param_B": 3, "param_b": 2}, {"param_B": 4, "param_b": 2}):
+            for a in (1, 3):
+                obs.append(ob("c05.CJJ14.PiPtr.B%db%d.a%d" % (over["param_B"], over["param_b"], a), "harness.c05",
+                              "h_shape", {"scheme": "CJJ14.PiPtr", "over": over, "a": a, "seed": seed, "max_n1": 3},
+                              budget_s=400))
     if tier == "quick":
         for a in (0, 1, 3):
             obs.append(ob("c05.DP17.Pi.L2.a%d" % a, "harness.c05", "h_shape",
